@@ -58,7 +58,25 @@ def struct_fields(src, relfile, name):
     m = re.search(r"struct " + re.escape(name) + r"(?:<[^>]*>)?\s*\{(.*?)\n\}", t, re.S)
     if not m:
         raise Untranslatable(f"struct {name} not found in {relfile}")
-    return re.findall(r"(?:pub(?:\([^)]*\))?\s+)?(\w+)\s*:", re.sub(r"#\[[^\]]*\]", "", m.group(1)))
+    body = re.sub(r"#\[[^\]]*\]", "", m.group(1))
+    out, depth, cur = [], 0, ""
+    for ch in body:
+        if ch in "({<[":
+            depth += 1
+        elif ch in ")}>]":
+            depth -= 1
+        if ch == "," and depth == 0:
+            out.append(cur)
+            cur = ""
+        else:
+            cur += ch
+    out.append(cur)
+    names = []
+    for o in out:
+        m2 = re.match(r"^\s*(?:pub(?:\([^)]*\))?\s+)?(\w+)\s*:(?!:)", o, re.S)
+        if m2:
+            names.append(m2.group(1))
+    return names
 
 
 def disc(ex, v):
